@@ -949,3 +949,27 @@ Lemma mm_order_dependent :
     generate_people_dict_mm lower_ascii id_order (@rev mentry) wx_mm wx_cs = Some (dict2, rev2) /\
     length rev1 = 1%nat /\ length rev2 = 2%nat.
 Proof. do 4 eexists. split; [vm_compute; reflexivity|]. split; [vm_compute; reflexivity|]. split; reflexivity. Qed.
+
+(* ---------- ParseMailmap returns (after the repair 199beb1); before it, "a>" made it panic ---------- *)
+Lemma parse_line_total mm l : exists mm', parse_line true mm l = Some mm'.
+Proof.
+  unfold parse_line.
+  repeat match goal with
+  | |- exists x, Some _ = Some x => eexists; reflexivity
+  | |- context [if ?b then _ else _] => destruct b
+  | |- context [match ?x with _ => _ end] => destruct x
+  end.
+Qed.
+
+Lemma parse_lines_total ls : forall mm, exists mm', parse_lines true mm ls = Some mm'.
+Proof.
+  induction ls as [|l ls IH]; intros mm; simpl; [eauto|].
+  destruct (parse_line_total mm l) as [mm1 ->]. apply IH.
+Qed.
+
+Theorem parse_mailmap_total s : exists mm, parse_mailmap s = Some mm.
+Proof. apply parse_lines_total. Qed.
+
+Lemma parse_mailmap_before_fix_panics : parse_mailmap_before_fix [97; 62] = None /\
+  parse_mailmap_before_fix [78; 32; 62; 32; 60; 99; 64; 120; 62] = None.      (* "a>", "N > <c@x>" *)
+Proof. split; vm_compute; reflexivity. Qed.
